@@ -315,8 +315,11 @@ int main (int argc, char *argv[]) {
                      * out the split string */
                     matched++;
                     if(matched == split_size) {
-                        if(l > matched)
-                            write_data(zck, data + start, l - (start + matched - 1));
+                        /* Data in this block in front of the split string
+                         * (which may have started in an earlier block) */
+                        ssize_t before = l + 1 - matched - start;
+                        if(before > 0)
+                            write_data(zck, data + start, before);
                         if(zck_end_chunk(zck) < 0)
                             exit(1);
                         write_data(zck, arguments.split_string, split_size);
@@ -333,8 +336,16 @@ int main (int argc, char *argv[]) {
                 }
             }
         }
-        write_data(zck, data + start, in_size - (start + matched));
+        /* Hold back a partial match at the end of the block; it can't be
+         * longer than what this block contributed to it */
+        ssize_t held = matched;
+        if(held > in_size - start)
+            held = in_size - start;
+        write_data(zck, data + start, in_size - start - held);
     }
+    /* Input ended in the middle of a possible split string */
+    if(in_size == 0 && matched > 0)
+        write_data(zck, arguments.split_string, matched);
     if(in_size < 0) {
         LOG_ERROR("Error reading %s", arguments.args[0]);
         perror("");
